@@ -1,7 +1,9 @@
 /-
   ptdriver query of the `pygen` family:
     (pygen (<node>…) <root> (<name>…))
-  -> `program <arg,arg,…>` TAB line TAB line …   the model's emitted function body
+  -> `program <arg,arg,…>` TAB line TAB line … TAB `#fragment yes|no <kinds>`
+                                                  the model's emitted function body; whether the graph
+                                                  is inside the fragment `pygen_sound` covers
    | `refuse <why>`                               the real generator raises a not-supported error
    | `unmodelled <why>`                           outside the modelled fragment
   Nodes (objects numbered by id in post-order; `<shape>` = `(d …)`, `?` = symbolic):
@@ -17,6 +19,7 @@
 -/
 import PtModel.Sexp
 import PtModel.PyGen
+import PtModel.PyDenote
 namespace Pt
 open Py
 
@@ -102,9 +105,15 @@ def handlePyGen : List Sx → Option String
   | [.list nodes, root, .list names] => do
     let g ← nodes.mapM parsePGNode
     let ex ← names.mapM Sx.asAtom?
-    match Py.generate g.toArray (← root.asNat?) ex with
+    let r ← root.asNat?
+    match Py.generate g.toArray r ex with
     | .ok p =>
-      some ("program " ++ ",".intercalate p.args ++ String.join (p.body.map fun s => "\t" ++ s.print))
+      -- last field: is the graph inside the fragment `pygen_sound` covers?
+      let frag :=
+        if Py.fragmentCheck g.toArray r then "#fragment yes"
+        else "#fragment no " ++ ",".intercalate (Py.outsideFragment g.toArray r)
+      some ("program " ++ ",".intercalate p.args ++ String.join (p.body.map fun s => "\t" ++ s.print)
+        ++ "\t" ++ frag)
     | .refuse w => some ("refuse " ++ w)
     | .unmodelled w => some ("unmodelled " ++ w)
   | _ => none
